@@ -68,3 +68,25 @@ def support_and_weights(c, pos, D, real_t, width=2):
         local_eul_grid_support_of_lag_grid=sup, nearest_eul_grid_index_to_lag_grid=idx, lag_positions=pos)
     c.interpolation_weights_kernel(interp_weights=w, local_eul_grid_support_of_lag_grid=sup)
     return idx, w
+
+
+def reference_interpolation(vel, pos, h, sfrac=0.5, kind="cosine"):
+    """documented Eulerian-to-Lagrangian interpolation, written independently of the library: tensor-product delta function of the
+    four nearest cells per direction; cell i has its centre at (i + sfrac) h; vel is (ncomp, .., y, x), pos is (D, N) with x first."""
+    vel = np.asarray(vel, dtype=float)
+    pos = np.asarray(pos, dtype=float)
+    D, N = pos.shape
+    phi = PHI[kind]
+    out = np.zeros((vel.shape[0], N))
+    for m in range(N):
+        idx = [int(np.floor(pos[k, m] / h - sfrac)) for k in range(D)]
+        w = np.ones((4,) * D)
+        for k in range(D):
+            d = [(idx[k] + j) + sfrac - pos[k, m] / h for j in (-1, 0, 1, 2)]
+            sh = [1] * D
+            sh[D - 1 - k] = 4
+            w = w * np.array([phi(x) for x in d]).reshape(sh)
+        sl = tuple(slice(idx[D - 1 - a] - 1, idx[D - 1 - a] + 3) for a in range(D))
+        for c in range(vel.shape[0]):
+            out[c, m] = float((vel[c][sl] * w).sum())
+    return out
